@@ -34,7 +34,7 @@ for k in (1, 2, 3):
             p = subprocess.run(["timeout", "-k", "5", "1500", "./check", cid, "--tier", "quick"], cwd=ROOT, stdout=subprocess.PIPE, stderr=subprocess.STDOUT, text=True)
         except Exception as ex:
             print("check failed to run:", ex); p = subprocess.CompletedProcess([], 124, stdout="")
-        subprocess.run("pkill -f 'build/[i]mplrun'; sleep 0.3", shell=True)
+        subprocess.run("pkill -f '^/verif/build/[i]mplrun'; sleep 0.3", shell=True)
         viol = [l for l in p.stdout.split("\n") if l.startswith("VIOLATION")]
         descr = [l[2:200] for l in p.stdout.split("\n") if l.startswith("# ")]
         results[cid] = {"exit": p.returncode, "violations": [re.sub(r"replay=\S*/", "replay=", v) for v in viol], "what": descr[:4]}
